@@ -36,6 +36,14 @@ def tla_strset(xs):
     return "{" + ", ".join('"%s"' % x for x in xs) + "}"
 
 
+def tlc_parallel(jobs):
+    """run several TLC jobs [(module, cfg name, kwargs)] side by side; results in job order"""
+    from concurrent.futures import ThreadPoolExecutor
+    with ThreadPoolExecutor(max_workers=min(4, max(1, len(jobs)))) as ex:
+        futs = [ex.submit(vlib.run_tlc, m, n, **kw) for m, n, kw in jobs]
+        return [f.result() for f in futs]
+
+
 def rows_of(obs, key):
     """query observation -> (column names, [row tuples]) ; a missing bucket is an empty result"""
     if not isinstance(obs, dict):
@@ -199,24 +207,28 @@ def run_c24(tier):
     devs = tla_strset(AGG_DEVS)
     # (config, MaxRows, Depth, mode, behaviours to replay (None = all), simulate count)
     if quick:
-        plan = [("one", 2, 2, "mc", 600, 0), ("two", 2, 2, "mc", 450, 0), ("one", 3, 4, "sim", None, 130), ("two", 3, 4, "sim", None, 110)]
+        plan = [("one", 2, 2, "mc", 600, 0), ("two", 2, 2, "mc", 450, 0), ("one6", 1, 4, "mc", 500, 0), ("two", 1, 3, "mc", None, 0),
+                ("one", 3, 4, "sim", None, 130), ("two", 3, 4, "sim", None, 110)]
     else:
         plan = [("one", 2, 2, "mc", None, 0), ("two", 2, 2, "mc", None, 0), ("one6", 2, 3, "mc", 30000, 0),
-                ("one", 3, 4, "sim", None, 4000), ("two", 3, 4, "sim", None, 4000), ("one", 1, 4, "mc", None, 0)]
-    behs = []
+                ("one", 3, 4, "sim", None, 4000), ("two", 3, 4, "sim", None, 4000), ("one", 1, 4, "mc", None, 0), ("two", 1, 4, "mc", None, 0)]
+    behs, jobs, info = [], [], []
     for cname, maxrows, depth, mode, nreplay, nsim in plan:
         cfg = AGG_CONFIGS[cname]
         hmul, lmul = rng.randrange(1, 13), rng.randrange(1, 13)
         consts = dict(NP=cfg["np"], DestSet=tla_set(cfg["destset"]), MaxRows=maxrows, Depth=depth, HMul=hmul, LMul=lmul, Deviations=devs)
         name = "AggTrigger_%s_r%d_d%d_%s.cfg" % (cname, maxrows, depth, mode)
+        invs = ["DestEqAggregateOfBase", "DeviationsExplainAll", "Emit"]
         if mode == "mc":
             # no VIEW: the history is part of the state, so that every history is visited (and emitted) once
-            r = vlib.run_tlc("AggTrigger", name, timeout=1500 if quick else 6000, heap="8g",
-                             cfg_text=vlib.cfg_text(consts, invariants=["DestEqAggregateOfBase", "DeviationsExplainAll", "Emit"]))
+            kw = dict(timeout=900 if quick else 6000, heap="6g", workers=6, cfg_text=vlib.cfg_text(consts, invariants=invs))
         else:
-            r = vlib.run_tlc("AggTrigger", name, simulate=nsim, depth=2 * depth + 1, seed_=rng.randrange(1, 2 ** 31), workers=1,
-                             timeout=1500 if quick else 6000,
-                             cfg_text=vlib.cfg_text(consts, invariants=["DestEqAggregateOfBase", "DeviationsExplainAll", "Emit"], view="View"))
+            kw = dict(simulate=nsim, depth=2 * depth + 1, seed_=rng.randrange(1, 2 ** 31), workers=1, timeout=900 if quick else 6000,
+                      heap="2g", cfg_text=vlib.cfg_text(consts, invariants=invs, view="View"))
+        jobs.append(("AggTrigger", name, kw))
+        info.append((cname, maxrows, depth, mode, nreplay, nsim, hmul, lmul, name))
+    for (cname, maxrows, depth, mode, nreplay, nsim, hmul, lmul, name), r in zip(info, tlc_parallel(jobs)):
+        cfg = AGG_CONFIGS[cname]
         vlib.tlc_ok(r, name)
         if r["violated"]:
             raise Undecided("MODEL-DRIFT: %s violates %s in the model\n%s" % (name, r["violated"], r["out"][-3000:]))
@@ -227,9 +239,7 @@ def run_c24(tier):
             raise Undecided("TLC emitted %d histories for %s, expected at least %d" % (len(got), name, want))
         res.cov.setdefault("histories_emitted", {})[name] = len(got)
         if nreplay is not None and len(got) > nreplay:
-            # seeded sample, but every history on which the model says a deviation matters within the first
-            # request pair is as likely as any other: plain uniform sampling
-            got = rng.sample(got, nreplay)
+            got = rng.sample(got, nreplay)      # seeded uniform sample of the enumerated histories
         for b in got:
             behs.append((cname, hmul, lmul, b))
     # ------------------------------ replay into the real trigger ------------------------------
@@ -360,9 +370,9 @@ class ReplConc:
         y0 = rng.choice([2019, 2020, 2023])
         lo = max(DAY // tfsec, 1)
         n_iv = year_len(y0) // tfsec
-        k = rng.randrange(lo, n_iv - 3000) if rng.random() < 0.8 else rng.choice([lo, n_iv - 1 - 2 * ni])
-        if tfsec == DAY:
-            k = rng.randrange(lo, n_iv - 2 * ni)
+        maxgap = max(2, min(1000, (n_iv - lo) // (4 * ni)))
+        top = n_iv - 1 - ni * maxgap                      # the last id still fits into the year
+        k = rng.randrange(lo, top + 1) if rng.random() < 0.8 else rng.choice([lo, top])
         out = []
         for j in range(ni):
             if j == ni - 1 and ni >= 2 and rng.random() < 0.25:
@@ -371,8 +381,7 @@ class ReplConc:
                 out.append((y1, year_start(y1) + k1 * tfsec))
                 break
             out.append((y0, year_start(y0) + k * tfsec))
-            k += 1 if rng.random() < 0.5 else rng.randrange(2, 40 if tfsec == DAY else 1000)
-            k = min(k, n_iv - 1 - (ni - j))
+            k += 1 if rng.random() < 0.5 else rng.randrange(2, maxgap + 1)
         return out
 
     def iv_epoch(self, b, i):
@@ -513,22 +522,25 @@ def run_c25(tier):
     devs = tla_strset(REPL_DEVS)
     # (NI, TfLong, MaxRecs, MaxSets, MaxTGs, MaxWrites, mode, replay count, simulate count)
     if quick:
-        plan = [(2, True, 1, 3, 3, 3, "mc", 1500, 0), (2, False, 1, 3, 3, 3, "mc", 400, 0),
-                (2, True, 2, 3, 3, 6, "sim", None, 300), (2, False, 2, 3, 3, 6, "sim", None, 100)]
+        plan = [(2, True, 1, 3, 3, 3, "mc", 900, 0), (2, False, 1, 3, 3, 3, "mc", 250, 0),
+                (2, True, 2, 3, 3, 6, "sim", None, 200), (2, False, 2, 3, 3, 6, "sim", None, 80)]
     else:
         plan = [(2, True, 1, 3, 3, 3, "mc", None, 0), (2, False, 1, 3, 3, 3, "mc", None, 0), (2, True, 1, 3, 3, 4, "mc", 20000, 0),
                 (1, True, 2, 3, 3, 3, "mc", 8000, 0), (2, True, 2, 3, 3, 7, "sim", None, 6000), (2, False, 2, 3, 3, 7, "sim", None, 2000)]
-    behs = []
+    behs, jobs, info = [], [], []
     for ni, tflong, maxrecs, maxsets, maxtgs, maxwrites, mode, nreplay, nsim in plan:
         consts = dict(NI=ni, TfLong="TRUE" if tflong else "FALSE", MaxRecs=maxrecs, MaxSets=maxsets, MaxTGs=maxtgs,
                       MaxWrites=maxwrites, Deviations=devs)
         name = "Repl_i%d_%s_r%d_s%d_g%d_w%d_%s.cfg" % (ni, "long" if tflong else "sec", maxrecs, maxsets, maxtgs, maxwrites, mode)
         invs = ["ReplicaConverged", "DeviationsExplainAll", "Emit"]
         if mode == "mc":
-            r = vlib.run_tlc("Repl", name, timeout=1500 if quick else 6000, heap="8g", cfg_text=vlib.cfg_text(consts, invariants=invs))
+            kw = dict(timeout=900 if quick else 6000, heap="6g", workers=6, cfg_text=vlib.cfg_text(consts, invariants=invs))
         else:
-            r = vlib.run_tlc("Repl", name, simulate=nsim, depth=maxwrites + maxtgs + 2, seed_=rng.randrange(1, 2 ** 31), workers=1,
-                             timeout=1500 if quick else 6000, cfg_text=vlib.cfg_text(consts, invariants=invs, view="View"))
+            kw = dict(simulate=nsim, depth=maxwrites + maxtgs + 2, seed_=rng.randrange(1, 2 ** 31), workers=1, heap="2g",
+                      timeout=900 if quick else 6000, cfg_text=vlib.cfg_text(consts, invariants=invs, view="View"))
+        jobs.append(("Repl", name, kw))
+        info.append((ni, tflong, mode, nreplay, nsim, name))
+    for (ni, tflong, mode, nreplay, nsim, name), r in zip(info, tlc_parallel(jobs)):
         vlib.tlc_ok(r, name)
         if r["violated"]:
             raise Undecided("MODEL-DRIFT: %s violates %s in the model\n%s" % (name, r["violated"], r["out"][-3000:]))
